@@ -611,7 +611,11 @@ def r27_14(ctx, m):
         ctx.und(R, key, f"{len(ifs)} dry-run branches ending in continue", fi)
         return
     body = ifs[0].body
-    upd = [b for b in body if isinstance(b, ast.Assign) and src(b.targets[0]) == "sl" and "mean" in src(b.value)]
+    # the names the real branches bind the sample list to (whatever they are called)
+    sl_names = {src(st.targets[0]) for st in ast.walk(fi.node) if isinstance(st, ast.Assign) and isinstance(st.value, ast.Call)
+                and call_name(st.value) == "_single_value_sample_list"}
+    upd = [b for b in body if isinstance(b, ast.Assign) and src(b.targets[0]) in sl_names and isinstance(b.value, ast.Call)
+           and call_name(b.value) in ("_single_value_sample_list", "SampleList")]
     ctx.check(R, key, bool(upd), src(upd[0]) if upd else "the sample list keeps its initial value for all checked iterations", fi, ifs[0])
 
 
